@@ -161,38 +161,28 @@ Print Assumptions C12_real_cwd_irrelevant.
 
 (* ---- the frame condition: orders, earlier analyses, failures ------------------------------ *)
 
-(* (M) one analysis - setup.py run to completion, raising, sys.exit-ing, popping the setup dir off
-   sys.path itself, chdir-ing; PEP 517 hook succeeding or raising - leaves cwd, sys.path, the
-   import hooks, the project modules and the patched attributes exactly as it found them.
-   The clean-up steps, their order and guards are generated from /repo's finally-blocks.
-   Guard: the script adds nothing to sys.path (the unguarded statement is refuted below). *)
-Theorem C12_frame_partial :
-  forall st p, quiescent st = true -> neutral st p = true -> snd (analyse st p) = st.
-Proof. exact frame_partial. Qed.
-Print Assumptions C12_frame_partial.
+(* (M) one analysis - setup.py run to completion, raising, sys.exit-ing, doing ANY surgery on sys.path
+   (pop, filter, remove, insertions), chdir-ing; PEP 517 hook succeeding or raising - leaves cwd,
+   sys.path, the import hooks, the project modules, the patched attributes and the warnings capture
+   exactly as it found them.  The clean-up steps, their order and guards are generated from /repo's
+   finally-blocks.  [quiescent] (nothing of an earlier analysis left) holds initially and, by this
+   very theorem, in every state a process reaches. *)
+Theorem C12_frame :
+  forall st p, quiescent st = true -> snd (analyse st p) = st.
+Proof. exact frame. Qed.
+Print Assumptions C12_frame.
 
 (* (M) all orders / whatever was analysed before: in any sequence every project gets the result it
    gets alone (imports served from its own helpers, relative path resolved against the same cwd) *)
 Theorem C12_sequence_independent :
-  forall st ps, quiescent st = true -> forallb (neutral st) ps = true ->
+  forall st ps, quiescent st = true ->
   run_seq st ps = (map (fun p => fst (analyse st p)) ps, st).
 Proof. exact sequence_independent. Qed.
 Print Assumptions C12_sequence_independent.
 
 (* a project that cannot be analysed is a failure for that project only *)
 Theorem C12_failure_is_local :
-  forall st p, quiescent st = true -> neutral st p = true ->
+  forall st p, quiescent st = true ->
   o_failed (fst (analyse st p)) = true -> snd (analyse st p) = st.
 Proof. exact failure_is_local. Qed.
 Print Assumptions C12_failure_is_local.
-
-Theorem C12_insert_leak_refuted :
-  exists st a b,
-    quiescent st = true
-    /\ snd (analyse st a) <> st
-    /\ g_path (snd (analyse st a)) = "/i-1.0/src" :: g_path st
-    /\ o_failed (fst (analyse st b)) = true
-    /\ map o_failed (fst (run_seq st [a; b])) = [false; false]
-    /\ map o_seen (fst (run_seq st [a; b])) = [[("hh", 5)]; [("hh", 6)]].
-Proof. exact insert_leak_refuted. Qed.
-Print Assumptions C12_insert_leak_refuted.
